@@ -568,6 +568,19 @@ func callSSA(i *interpreter, caller *frame, callpos token.Pos, fn *ssa.Function,
 				return r
 			}
 		}
+		// the generated varint-size helpers sovXxx(x uint64) int / runtime.Sov: (bits.Len64(x|1)+6)/7.
+		// On a symbolic operand the ten size classes are enumerated with decisions, so that every
+		// length and offset computed from the result is concrete.
+		if len(args) == 1 && (strings.HasPrefix(fn.Name(), "sov") || fn.Name() == "Sov") && isSovSig(fn) {
+			if sx, ok := args[0].(symInt); ok {
+				for n := 1; n < 10; n++ {
+					if i.decide(i.tc.Lt(sx.t, i.tc.Const(new(big.Int).Lsh(bigOne, uint(7*n)))), "varint size class") {
+						return n
+					}
+				}
+				return 10
+			}
+		}
 		if strings.HasSuffix(name, "/internal/conv.UnsafeStrToBytes") {
 			return bytesToValue([]byte(argStr(args[0])))
 		}
@@ -840,4 +853,14 @@ func Interpret(mainpkg *ssa.Package, mode Mode, sizes types.Sizes, filename stri
 		exitCode = 1
 	}
 	return
+}
+
+func isSovSig(fn *ssa.Function) bool {
+	sig := fn.Signature
+	if sig.Params().Len() != 1 || sig.Results().Len() != 1 {
+		return false
+	}
+	p, ok1 := sig.Params().At(0).Type().Underlying().(*types.Basic)
+	r, ok2 := sig.Results().At(0).Type().Underlying().(*types.Basic)
+	return ok1 && ok2 && p.Kind() == types.Uint64 && r.Kind() == types.Int
 }
